@@ -239,7 +239,7 @@ def _bisync(clauses, ignore=None, not_decided=(), only_re=None):
     u = dict(BISYNC_UNIT)
     if ignore:
         u["ignore_clauses"] = ignore
-    return dict(level="proof", units=[u], twins=[dict(BISYNC_TWIN, only_re=only_re)], fallback_searches=["bisync"], clauses=clauses,
+    return dict(level="proof", units=[u], twins=[dict(BISYNC_TWIN, only_re=only_re)], fallback_searches=["bisync"], fallback_only_re=only_re, clauses=clauses,
                 trusted=COMMON_TRUST + WORLD_TRUST, assumptions=["roots do not overlap; the archive file lives outside both trees; the archive epoch is below u64::MAX; names ending in .copia-tmp are reserved"],
                 not_decided=list(not_decided))
 
@@ -247,13 +247,13 @@ PROPS["C07"] = _bisync({
     "Archive::load": "Some(a) ==> the file AT THE GIVEN PATH exists, parses to a, a.format_version == 1 and a.root_pair_hash == the expected pair (nothing else is ever trusted: no .bak, no other pair, no other version)",
     "run_bisync": "no trusted archive for this pair at the archive path ==> no Unlink effect at all (the plan is computed with every base forced to None, table(a,b,None) is never a delete, apply unlinks only on Delete*)",
     "apply": "an Unlink effect happens only for DeleteA/DeleteB and only on the path that action names",
-}, ignore={"run_bisync": [r"record_ok", r"conflict_names_free"], "copy_atomic": [r"synced", r"is_staging\(asp\(from\)\)"]},
+}, ignore={"run_bisync": [r"record_ok", r"conflict_names_free", r"conflict_name_not_planned"], "copy_atomic": [r"synced", r"is_staging\(asp\(from\)\)"]},
    only_re=r"\(C07\)", not_decided=["injectivity of root_pair_hash (two different pairs never share an identifier) is assumed (hash by contract); validated only by the history twin"])
 PROPS["C08"] = _bisync({
     "copy_atomic": "whatever happens (success, error, a cut between any two steps) no non-staging path other than dst changes; dst changes only by the rename of a staging file that was FLUSHED first (vfs_rename's precondition); non-atomic writes only on *.copia-tmp (vfs_copy's precondition)",
     "Archive::save": "the record is written to <path>.tmp, flushed, then renamed; on any error the live record holds the old bytes, is absent, or is the complete new record",
     "run_bisync": "once the archive has been renamed into place no further rename into either tree happens; apply's renames all land inside the trees; an error in any apply returns before the archive is touched",
-}, ignore={"run_bisync": [r"record_ok", r"conflict_names_free"]},
+}, ignore={"run_bisync": [r"record_ok", r"conflict_names_free", r"conflict_name_not_planned"]},
    only_re=r"\(C08\)|crashed", not_decided=["'running bisync again after the crash converges' is a statement about a second run; not decided (history-level)"])
 PROPS["C02"] = _bisync({
     "apply": "per action, under 'the scan is still accurate at this path': propagate puts the source bytes on the other side and keeps them on the source side; delete-vs-modify restores the survivor; a divergent edit leaves the greater-BLAKE3 version at the path on both sides and the other version at the conflict-copy name on both sides; nothing outside the action's own paths changes (frame)",
@@ -264,8 +264,8 @@ PROPS["C06"] = _bisync({
     "apply": "what is recorded for a path is the fingerprint of the version now on both sides (exact value per action), nothing else in the record changes; winner = greater BLAKE3 (lexicographic), loser at <path>.conflict-<host>-<hex12>",
     "run_bisync": "the new record names only paths that exist on a side at the start of the run or conflict-copy names (no stale entries)",
     "mtime independence": "no function under contract reads an mtime (the scan's contract is a function of file bytes only)",
-}, ignore={"run_bisync": [r"conflict_names_free"], "copy_atomic": [r"synced", r"is_staging\(asp\(from\)\)"]},
+}, ignore={"run_bisync": [r"conflict_names_free", r"conflict_name_not_planned"], "copy_atomic": [r"synced", r"is_staging\(asp\(from\)\)"]},
    only_re=r"\(C06\)", not_decided=["post-run A == B == archive.entries as one whole-tree equality (cross-path frame, L2) is not mechanised; it is exercised by the history twin only", "A/B symmetry lemma not mechanised"])
-PROPS["C15"]["units"].append(dict(template="units/bisync.rs", slice=["run_bisync"], ignore_clauses={"run_bisync": [r"record_ok", r"conflict_names_free"]}))
+PROPS["C15"]["units"].append(dict(template="units/bisync.rs", slice=["run_bisync"], ignore_clauses={"run_bisync": [r"record_ok", r"conflict_names_free", r"conflict_name_not_planned"]}))
 PROPS["C15"]["clauses"]["bisync --dry-run"] = "run_bisync: opts.dry_run ==> the world (files and effect log) is unchanged"
 PROPS["C15"]["trusted"] = COMMON_TRUST + PATH_TRUST + WORLD_TRUST
